@@ -600,9 +600,13 @@ func (c *Conn) RunRTx(tx RTx, cur *oracle.Image) (res RTxResult) {
 				return
 			}
 			wroteDB = true
-			if err := writeHdr(); c.fail(&res, "journal header (segment)", err) {
-				c.abandon()
-				return
+			// SQLite starts a new journal segment after a sync; in no-sync mode (nRec = 0xffffffff)
+			// syncJournal() does nothing and the journal stays a single segment.
+			if !noSync {
+				if err := writeHdr(); c.fail(&res, "journal header (segment)", err) {
+					c.abandon()
+					return
+				}
 			}
 		}
 	}
